@@ -855,6 +855,26 @@ pub fn judge_c07_sampled(w: &WMsg, p: &Probe, max_even: usize) -> Judge {
                     return Err(Fail::new(sig, format!("{which} parser, I/O error {kind:?} injected at offset {k} (header+attributes {l} bytes): expected Err(IoError({kind:?})), got {}; message={}", out.short(), hex_short(&full))));
                 }
             }
+            // the same fault when the parser reads through the library's own payload bridge (an
+            // IppPayload wrapping a source of the other kind - the payload of an earlier message, say)
+            if k % 4 == 1 && !matches!(*kind, ErrorKind::WouldBlock | ErrorKind::UnexpectedEof) {
+                for (which, out) in [
+                    ("blocking parser over IppPayload(async source), 3-byte reads", parse_blocking_via_async_payload(full.clone(), Schedule::uniform(full.len(), 3), Some((k, *kind)))),
+                    ("async parser over IppPayload(blocking source), 3-byte reads", parse_async_via_sync_payload(full.clone(), Schedule::uniform(full.len(), 3), Some((k, *kind)))),
+                ] {
+                    evals += 1;
+                    let want = Outcome::Io(io_kind_name(*kind));
+                    if out != want {
+                        let sig = match &out {
+                            Outcome::Ok { .. } => "C07/fault-swallowed/payload-bridge".to_string(),
+                            Outcome::Panic(s) => format!("C07/fault-{s}/payload-bridge"),
+                            Outcome::Io(_) => "C07/error-kind-changed/payload-bridge".to_string(),
+                            o => format!("C07/fault-other/{}/payload-bridge", o.class()),
+                        };
+                        return Err(Fail::new(sig, format!("{which}, I/O error {kind:?} injected at offset {k} (header+attributes {l} bytes): expected Err(IoError({kind:?})), got {}; message={}", out.short(), hex_short(&full))));
+                    }
+                }
+            }
             if nt {
                 p.nontrivial(hash64(&(w, k, io_kind_name(*kind))));
             }
@@ -875,7 +895,7 @@ pub fn judge_c07_sampled(w: &WMsg, p: &Probe, max_even: usize) -> Judge {
 
 pub fn run_c07(ctx: &Ctx) {
     ctx.enable_traced_pass(4);
-    ctx.set_rule("fault enumeration: for each proptest-generated well-formed message (small and general wire trees incl. collections, with-language values, boundary lengths) EVERY cut point k in [0,L) and EVERY (offset k in [0,L), kind) single fault for kinds ConnectionReset, ConnectionAborted, TimedOut, BrokenPipe, UnexpectedEof, PermissionDenied, Other, WouldBlock is injected (blocking whole/3-byte reads and async); cut => Err, fault => Err(IoError(kind)). For L>600 offsets are sampled (600 evenly + last 40). Each parse is one evaluation. Non-trivial = position strictly inside a length field, name or value; distinct by (message, position, kind).");
+    ctx.set_rule("fault enumeration: for each proptest-generated well-formed message (small and general wire trees incl. collections, with-language values, boundary lengths) EVERY cut point k in [0,L) and EVERY (offset k in [0,L), kind) single fault for kinds ConnectionReset, ConnectionAborted, TimedOut, BrokenPipe, UnexpectedEof, PermissionDenied, Other, WouldBlock is injected (blocking whole/3-byte reads and async; at every fourth offset also with the parser reading through an IppPayload that wraps a source of the other kind, the library's sync<->async bridge); cut => Err, fault => Err(IoError(kind)). For L>600 offsets are sampled (600 evenly + last 40). Each parse is one evaluation. Non-trivial = position strictly inside a length field, name or value; distinct by (message, position, kind).");
     ctx.assume("a persistent Interrupted fault is excluded: std::io::Read::read_exact retries it forever by contract");
     let (shards, per) = ctx.tier.pick((16, 40), (16, 900));
     run_prop(ctx, "cuts-and-faults", shards, per, || prop_oneof![4 => gen::w_msg_small(), 1 => gen::w_msg(3)], judge_c07, wmsg_json);
